@@ -99,6 +99,9 @@ class SyntaxParserOfLark:
 
 		identity = {
 			'grammar_mtime': str(self.__datums.mtime(self.__setting.grammar)),
+			'grammar': self.__setting.grammar,
+			'start': self.__setting.start,
+			'algorithem': self.__setting.algorithem,
 			'mtime': str(self.__sources.mtime(source_path)),
 		}
 		decorator = self.__caches.get(basepath, identity=identity, format='json')
